@@ -165,9 +165,10 @@ func (c *FnCtx) inlineCall(fn *ssa.Function, args []Value, bindings []Value, st 
 	res, out := c.exec(fn, args, bindings, st)
 	if out == nil {
 		st.R = c.f.False()
+		st.P = c.f.False()
 		return c.havocResults(st, fn.Signature.Results(), fn.Name())
 	}
-	st.R, st.heap, st.alpha = out.R, out.heap, out.alpha
+	st.R, st.P, st.heap, st.alpha, st.fwd = out.R, out.P, out.heap, out.alpha, out.fwd
 	return res
 }
 
@@ -337,13 +338,14 @@ func (c *FnCtx) byContract(ct *Contract, sig *types.Signature, args []Value, st 
 	pre := st.clone()
 	// frame
 	locs := c.collectAssigns(ct, args, st)
-	for _, l := range locs {
-		c.havocLoc(st, l, pos)
-	}
 	if !ct.Pure {
+		// the callee may allocate: havocked locations and results may refer to new objects
 		na := f.Fresh("alpha", SInt)
 		c.assume(st, f.Le(st.alpha, na))
 		st.alpha = na
+	}
+	for _, l := range locs {
+		c.havocLoc(st, l, pos)
 	}
 	// results
 	var results []Value
@@ -491,7 +493,7 @@ func (c *FnCtx) appendSeq(st *State, seq Sort, sliceT types.Type, s, add *Term, 
 	fits := f.Le(newLen, cp)
 	// in-place branch
 	inplace := st.clone()
-	inplace.R = f.And(st.R, fits, f.Lt(f.Int(0), n))
+	c.assume(inplace, f.And(fits, f.Lt(f.Int(0), n)))
 	c.frameCheck(inplace, memKey(seq), ref, f.Add(off, ln), f.Add(off, newLen), pos)
 	reg := c.regionOf(st, seq, ref)
 	// fresh branch
@@ -592,6 +594,7 @@ func (fr *frame) vspecIntrinsic(x *ssa.Call, name string, fn *ssa.Function, args
 		}
 		i := f.BoundVar("i", SInt)
 		tmp := st.clone()
+		tmp.P = f.True()
 		c.ghost++
 		res, out := c.exec(cfn, []Value{i}, binds, tmp)
 		c.ghost--
@@ -600,11 +603,12 @@ func (fr *frame) vspecIntrinsic(x *ssa.Call, name string, fn *ssa.Function, args
 			c.unsupported("quantifier body did not evaluate at %s", pos)
 			return f.Fresh("q", SBool), true
 		}
-		if out.R != st.R {
-			// assumptions made inside the body (contract calls): guard the body with them
-			c.note("quantifier body at %s introduces assumptions; they are attached to the body", pos)
-		}
 		rng := f.And(f.mk("<=", SBool, "", lo, i), f.mk("<", SBool, "", i, hi))
+		if lp := out.localP(f); lp.op != "true" {
+			// type invariants of values loaded inside the body (well-formed slice headers, ...) and facts
+			// assumed there hold for every index: they are assumed as a separate quantified fact
+			c.assume(st, f.Forall([]*Term{i}, f.Implies(rng, lp)))
+		}
 		if name == "Forall" {
 			return f.Forall([]*Term{i}, f.Implies(rng, body)), true
 		}
